@@ -11,6 +11,10 @@ CHECKS = {
             "Lean 4 theorems over a hand-written model of Standardiser (exact extended rationals) + differential correspondence with the Python class + independent property oracle",
             "Every clause of C06 is a Lean theorem about Model/Standardiser.lean, for all accepted parameters, supplies, finite demands and op histories; the model is tied to standardiser.py on every run by executing generated and grid op programs on both and comparing every observation exactly.",
             "Trusted: Lean kernel + {propext, Classical.choice, Quot.sound}; the model (tied by sampling correspondence only); CPython arithmetic on int/Fraction/dyadic floats; IEEE rounding not modelled."),
+    "C07": ("§6 C07",
+            "Lean 4 theorems over a hand-written model of Uniform/WeightedComposite (exact rationals, arbitrary child lists) + differential correspondence + independent oracle (exact and float-tolerance streams)",
+            "Conservation, proportionality, share bounds, read-back, supply sum, fitness range and the documented fallbacks are Lean theorems for child lists of any length; the model is tied to uniform.py/weighted.py on every run by executing generated op histories on both.",
+            "Trusted: Lean kernel + standard axioms; the model (sampling correspondence); CPython Fraction arithmetic; float rounding only judged by the oracle up to 1e-9."),
 }
 
 PENDING_REASON = "check not built yet in this session (planned: Lean model + proof + correspondence, see DESIGN.md work order); not claimed until its check exists"
